@@ -144,3 +144,61 @@ Proof.
   rewrite <- Ho. cbn [ttype tstart tend]. split; [reflexivity|lia].
 Qed.
 
+
+(* ---------------------------------------------------------------------- *)
+(* The ghost flag [failed] only marks what /repo cancels: the text-object
+   functions that return None when they fail (e E ge gE g_ j k), or an
+   exclusive object with equal ends - the two tests of the wrapper
+   _apply_operator_to_text_object. *)
+Definition none_family (m : tok) : bool :=
+  match m with T_e _ | T_ge _ | T_g_ | T_j | T_k => true | _ => false end.
+
+Lemma failed_flag_sound m d n hc o :
+  text_object m d n hc = TO o true ->
+  none_family m = true \/ (ttype o = EXCL /\ tstart o = tend o).
+Proof.
+  destruct m; cbn [none_family]; try (left; reflexivity); right; revert H; cbn [text_object].
+  - apply excl0_failed.
+  - apply excl0_failed.
+  - apply excl0_failed.
+  - destruct (find_boundaries_of_current_word d WORD false trail) as [s e]. intros H.
+    assert (Hf : (s =? 0) && (e =? 0) = true) by congruence.
+    assert (Ho : mkto s e EXCL = o) by congruence.
+    rewrite <- Ho. cbn [ttype tstart tend]. split; [reflexivity|]. apply andb_true_iff in Hf. lia.
+  - destruct (start_of_paragraph d 1 false) as [s|]; [|discriminate].
+    destruct (end_of_paragraph d n false) as [e|]; [|discriminate]. intros H.
+    assert (Hf : (s =? e) = true) by congruence.
+    assert (Ho : mkto s e EXCL = o) by congruence.
+    rewrite <- Ho. cbn [ttype tstart tend]. split; [reflexivity|lia].
+  - apply excl0_failed.
+  - apply excl0_failed.
+  - destruct (if l =? r
+              then (dfind_backwards ceq_exact d [l] false 1, dfind ceq_exact d [r] false false 1)
+              else (find_enclosing_bracket_left d l r None, find_enclosing_bracket_right d l r None))
+      as [[s|] [e|]]; try apply mk1_0_failed.
+    intros H.
+    assert (Hf : (e + (if inner then 0 else 1) =? s + 1 - (if inner then 0 else 1)) = true) by congruence.
+    assert (Ho : mkto (s + 1 - (if inner then 0 else 1)) (e + (if inner then 0 else 1)) EXCL = o) by congruence.
+    rewrite <- Ho. cbn [ttype tstart tend]. split; [reflexivity|lia].
+  - destruct (start_of_paragraph d n true); [apply excl0_failed|discriminate].
+  - destruct (end_of_paragraph d n true); [apply excl0_failed|discriminate].
+  - apply if_match_failed.
+  - apply excl0_failed.
+  - apply if_match_failed.
+  - destruct (dfind_backwards ceq_exact d [ch] true n) as [v|]; [|apply mk1_0_failed].
+    destruct (v =? 0); [apply mk1_0_failed|apply excl0_failed].
+  - destruct has; [|apply mk1_0_failed]. destruct (xorb backwards reverse); apply if_match_failed.
+  - apply excl0_failed.
+  - apply excl0_failed.
+  - discriminate.
+  - discriminate.
+  - discriminate.
+  - destruct hc.
+    + destruct ((0 <? n) && (n <=? 100)); [discriminate|apply mk1_0_failed].
+    + destruct (find_matching_bracket_position d None None =? 0); [apply mk1_0_failed|discriminate].
+  - apply excl0_failed.
+  - destruct hc; discriminate.
+  - apply mk1_0_failed.
+  - discriminate.
+  - discriminate.
+Qed.
